@@ -28,8 +28,10 @@ def records_oracle(case, obs):
             continue
         if ri['task'] != t['slug']:
             return f'step {k}: run info of {op["name"]} names task {ri["task"]}'
-        if ri['log'] is not None and ri['log'] and ri['log'][-1] != 'second':
-            return f'step {k}: records of {op["name"]} are {ri["log"]}'
+        n_in = len(ri.get('input_tasks') or {})
+        if ri['log'] is not None and ri['log'] != [{'inputs': ri['log'][0].get('inputs') if ri['log'] and isinstance(ri['log'][0], dict) else None}, 'second']:
+            return (f'step {k}: the records of {op["name"]} are {ri["log"]}; its run adds exactly two records '
+                    f'(records of other runs are present, or records are missing)')
         chains = refs[k]
         ref = chains[op['chain']] if op['chain'] < len(chains) else None
         if ref is None or op['name'] not in ref:
@@ -70,7 +72,20 @@ class Records(Histories):
                     {'op': 'records', 'chain': 0, 'pick': 0}, {'op': 'records', 'chain': 0, 'pick': 1},
                     {'op': 'force_chain', 'chain': 0, 'picks': [0], 'recompute': True, 'delete': False},
                     {'op': 'records', 'chain': 0, 'pick': 0}, {'op': 'records', 'chain': 0, 'pick': 1}]
-        return [c]
+        # the same history with a task whose result is kept in memory only (it still logs and writes run info)
+        m = dict(c, classes=[K(0, 'Up', params=[P('a'), P('skip', ignore=True)], data='memory'),
+                             K(1, 'Down', meta_inputs=[{'cls': 0}], data='memory')])
+        # one task object run several times: forced twice, and retried after a failure, on one chain
+        r = dict(c)
+        r['ops'] = [{'op': 'build', 'base': base}, {'op': 'value', 'chain': 0, 'pick': 1},
+                    {'op': 'force_chain', 'chain': 0, 'picks': [1], 'recompute': True, 'delete': False},
+                    {'op': 'records', 'chain': 0, 'pick': 1},
+                    {'op': 'force_task', 'chain': 0, 'pick': 0, 'delete': False}, {'op': 'fail', 'slugs': ['up']},
+                    {'op': 'value', 'chain': 0, 'pick': 0}, {'op': 'fail', 'slugs': []},
+                    {'op': 'value', 'chain': 0, 'pick': 0}, {'op': 'records', 'chain': 0, 'pick': 0},
+                    {'op': 'force_chain', 'chain': 0, 'picks': [0], 'recompute': True, 'delete': True},
+                    {'op': 'records', 'chain': 0, 'pick': 0}, {'op': 'records', 'chain': 0, 'pick': 1}]
+        return [c, m, r]
 
     def oracle(self, case, obs):
         return records_oracle(case, obs) or history_oracle(case, obs, self.checks)
